@@ -120,20 +120,20 @@ CHECKS = {
    ref='DESIGN.md section 4 C19'),
  'C07': dict(
    text='Theorems (Coq, reals, every dimension): straight-through: forward value = the code, derivative w.r.t. the input = identity; rotation trick: forward value = the code (non-degenerate norms), derivative = (|q|/|x|) (I - 2 w w^T + 2 q_hat u_hat^T) applied to dx, linear in the direction, '
-        'and that map carries the input direction onto the code direction; evaluation-mode output has no input gradient; sync_update_v scales the gradient by (1+v); commitment loss: d/dx = 2 w (x - q)/N (Coquelicot derivative), EMA-maintained or frozen codebooks get no gradient, learnable ones 2 w (q - x)/N; '
+        'that map carries the input direction onto the code direction and is an isometry (|R e| = |e| for every e: a rotation); evaluation-mode output has no input gradient; sync_update_v scales the gradient by (1+v); commitment loss: d/dx = 2 w (x - q)/N (Coquelicot derivative), EMA-maintained or frozen codebooks get no gradient, learnable ones 2 w (q - x)/N; '
         'FSQ: derivative = half_l (1 - tanh^2(z + shift)) / floor(L/2); gradients never flow between positions. '
         'Tie: maybe_detach / rotation guards and safe_div regenerated, every .detach() / no_grad site pinned; full torch Jacobians compared column by column with the model evaluated in Coq over Q, forward values, loss gradients w.r.t. input and codebook, SimVQ two-sided loss and transform gradient, '
         'FSQ / LFQ / LatentQuantize closed forms, residual and large forms by vector-Jacobian products, every cross-position block compared exactly with 0.',
-   note='PARTIAL as named: torch autograd itself is modelled (detached sub-expressions are constants of the differentiated map) and validated against real Jacobians, not verified; orthogonality of the rotation matrix is not proved (only that it maps u_hat to q_hat and is linear).',
+   note='PARTIAL as named: torch autograd itself is modelled (detached sub-expressions are constants of the differentiated map) and validated against real Jacobians, not verified.',
    technique='Coq proof (reals, vector algebra, Coquelicot derivatives) + regenerated guards / pinned detach sites + Jacobian correspondence evaluated in Coq over Q',
    ref='DESIGN.md section 4 C07'),
  'C17': dict(
    text='Theorems (Coq, reals): the commitment term enters the loss only under the regenerated training guard (zero in evaluation mode); mse is non-negative, symmetric, zero iff equal; SimVQ loss = commitment_weight (1 + w) mse; '
-        'clamped entropy of a distribution: non-negative, at most ln K (Gibbs, unclamped region), 0 for a one-hot and ln K for the uniform distribution; the entropy term -p ln p is midpoint-concave and hence mean per-token entropy <= entropy of the mean for two tokens (partial Jensen); '
+        'clamped entropy of a distribution: non-negative, at most ln K (Gibbs, unclamped region), 0 for a one-hot and ln K for the uniform distribution; finite Jensen for the entropy term -t ln t (any number of points) and hence mean per-token entropy <= entropy of the mean distribution for ANY number of tokens (entries >= eps); '
         'orthogonality penalty of n identical unit codes = 1 - 1/n. '
         'Tie: commitment guard and the whole loss assembly (VectorQuantize, SimVQ, LFQ, LatentQuantize) regenerated and pinned; reported losses and breakdown tuples compared with the documented formulas recomputed independently (float64) from inputs, selected codes, codebook, weights, temperatures and (per-sample) masks; '
         'mse terms evaluated in Coq over Q, small LFQ entropy cases certified by the interval tactic, entropy inequalities checked on every LFQ call, every term zero in evaluation mode.',
-   note='PARTIAL: the m-token Jensen inequality for the clamped entropy is stated (C17_entropy_chain_full_statement, not asserted) and only its two-token unclamped case is proved. Known finding: SimVQ / ResidualSimVQ report a non-zero loss in eval().',
+   note='PARTIAL only in the clamped region: the entropy chain is proved for distributions whose entries are >= eps (any number of tokens); the statement for entries below the clamp is kept (C17_entropy_chain_full_statement, not asserted). Known finding: SimVQ / ResidualSimVQ report a non-zero loss in eval().',
    technique='Coq proof (reals: Gibbs inequality, concavity) + regenerated guard / pinned loss assembly + independent recomputation with Coq (Q) and interval-certified cases',
    ref='DESIGN.md section 4 C17'),
  'C18': dict(
